@@ -145,7 +145,13 @@ pub fn check(c: &Case) -> Outcome {
                         RFrame::Choke => classes.push("client-choked-us"),
                         RFrame::Piece(i, b, data) => {
                             // match an earlier unanswered request
-                            let m = reqs.iter_mut().find(|r| r.answers == 0 && r.i == *i && r.b == *b && r.l as usize == data.len());
+                            // identical triples may have been sent in a choked and in an unchoked phase: an answer is
+                            // attributed to a request that was allowed to be answered if there is one
+                            let pos = reqs
+                                .iter()
+                                .position(|r| r.answers == 0 && r.unchoked_when_sent && r.i == *i && r.b == *b && r.l as usize == data.len())
+                                .or_else(|| reqs.iter().position(|r| r.answers == 0 && r.i == *i && r.b == *b && r.l as usize == data.len()));
+                            let m = pos.map(|p| &mut reqs[p]);
                             let what = format!("op {} ({:?}): client sent Piece({},{},<{} bytes>)", k, op, i, b, data.len());
                             match m {
                                 None => {
